@@ -136,6 +136,16 @@ int main() {
     }
     if (sig[0] != sig[1]) { if (bad < 8) printf("addSep(larger id, smaller id, dir %d, %s, 20) means something else after history %d for that pair than on a fresh matrix (flippedRetrieval is stale)\n", sd % 4, sd < 4 ? ">=" : "==", hist); bad++; }
   }
+  // (6) a cardinal separation on a pair that already holds a fixed offset in the other axis: "east of, and aligned" replaces the offset
+  for (int sd = 0; sd < 4; ++sd) {
+    SepPair p; bool xmain = (sd == 0 || sd == 2);
+    p.addSep(GapType::CENTRE, xmain ? SepDir::DOWN : SepDir::RIGHT, SepType::EQ, 40);       // earlier: centres exactly 40 apart in the OTHER axis
+    p.addSep(GapType::CENTRE, (SepDir)sd, SepType::INEQ, 10);
+    double sgn = (sd == 0 || sd == 1) ? 1 : -1;
+    double A[4] = {0, 0, 2, 2}, Baligned[4] = {xmain ? 20 * sgn : 0, xmain ? 0 : 20 * sgn, 2, 2}, Boffset[4] = {xmain ? 20 * sgn : 40, xmain ? 40 : 20 * sgn, 2, 2};
+    if (!sat(p, A, Baligned) || sat(p, A, Boffset)) { if (bad < 8) printf("cardinal direction %d after a fixed offset of 40 in the other axis: aligned placement %s, offset placement %s\n", sd,
+        sat(p, A, Baligned) ? "accepted" : "REJECTED", sat(p, A, Boffset) ? "ACCEPTED" : "rejected"); bad++; }
+  }
   if (bad) { printf("REPRODUCED: %d disagreement(s)\n", bad); return 1; }
   printf("not reproduced\n"); return 0;
 }
@@ -195,6 +205,10 @@ def jobs(tier):
                       flags=["--sat-solver", "cadical"], backend="sat:cadical", timeout=900, replay=replay_c18,
                       domain="bit-precise IEEE; every gap type and relation; integer-valued centres and gaps with |v| <= %d (both signs of zero), even sizes" % bound,
                       expect=[r'h_addSep_flip\.assertion']))
+    js.append(Job("addSep_meaning_after_any_history", "U", spec, "h_addSep_meaning", cxx=cxx, defines=["JOB_addSep_meaning"], slices=[ad],
+                  flags=["--sat-solver", "cadical"], backend="sat:cadical", timeout=600, replay=replay_c18,
+                  domain="every prior record of the pair (all type combinations, all doubles), every gap type, direction and relation, every gap (all doubles but NaN; compared bit for bit)",
+                  expect=[r'h_addSep_meaning\.assertion']))
     # ---------------- generateSeparationConstraint: what VPSC receives is the record's meaning
     gs = slice_func(CC, r'^vpsc::Constraint \*SepPair::generateSeparationConstraint\(const vpsc::Dim dim, const ColaGraphRep &cgr,', "SepPair::generateSeparationConstraint")
     dim = slice_block("libvpsc/rectangle.h", r'^enum Dim \{', "enum vpsc::Dim")
@@ -287,5 +301,5 @@ ASSUMPTIONS = [
 ]
 EXPLANATION = ("Contracts on the real dialect::SepPair: transform realises the complete multiplication table of the symmetry group of the square (49 products, records compared "
                "bit for bit, all doubles); transform commutes with geometry record by record (84 cases: 7 transforms x 2 axes x 3 relations x 2 gap types); addSep under (a,b) "
-               "with g equals addSep under (b,a) with -g, and SepMatrix::getSepPair hands out the pair with a flag that describes the current retrieval whether or not the pair "
+               "with g equals addSep under (b,a) with -g; addSep stores the stated separation (a cardinal one with the alignment in the other axis) whatever the pair held before; SepMatrix::getSepPair hands out the pair with a flag that describes the current retrieval whether or not the pair "
                "existed (so the negation is applied on the id order of THIS call); generateSeparationConstraint hands VPSC exactly the record's meaning (sign bit of the gap, incl. -0.0).")
